@@ -283,6 +283,15 @@ func (f *Frame) specCall(st *State, e *ast.CallExpr, kind string) []*Term {
 			v = f.convertTo(st, v, f.typeOf(e.Args[0]), types.NewInterfaceType(nil, nil))
 		}
 		return []*Term{App(c.ufun(kind, []Sort{SIfc, SInt}, SStr), SStr, v, f.expr(st, e.Args[1]))}
+	case kind == "restBytes" || kind == "restErr":
+		v := f.expr(st, e.Args[0])
+		if v.Sort != SIfc {
+			v = f.convertTo(st, v, f.typeOf(e.Args[0]), types.NewInterfaceType(nil, nil))
+		}
+		if kind == "restBytes" {
+			return []*Term{App(c.ufun("restBytes", []Sort{SIfc}, SByt), SByt, v)}
+		}
+		return []*Term{App(c.ufun("restErr", []Sort{SIfc}, SIfc), SIfc, v)}
 	case kind == "scanPos":
 		v := f.expr(st, e.Args[0])
 		return []*Term{Select(c.heapGet(st, "SC!pos", ArrSort(SInt, SInt)), v)}
